@@ -183,7 +183,7 @@ KANI_UNITS["C30"] = dict(
                  "RwLock, per-IP HashMap, eviction) — BOUNDED STAND-IN run natively at rate 0: with the table never over capacity, every client is admitted exactly min(burst, requests) "
                  "times, i.e. a tracked client never gets a fresh bucket. NOT decided: eviction order when new clients arrive at capacity; rates other than 1 and 50."),
     assumptions=["kani::stub std::time::Instant::now -> fixed Instant (transmute of (i64,u32); layout assumption)",
-                 "refill / try_consume cells: concrete rates 1 and 50 only; elapsed time up to 900 000 s",
+                 "refill / try_consume cells: concrete rates 1 and 50 only; elapsed time = any whole number of seconds up to 900 000, plus 0 or 0.5 s",
                  "RateLimiter::check: bounded native enumeration only — nothing is proved for it"],
 )
 
